@@ -164,6 +164,9 @@ func hmExecSet(hm *HashMap, values []r.Element) (r.Element, error) {
 	}
 	// key name
 	keyName := values[0].(*String).value
+	if err := refuseSelfContainment(hm, values[1]); err != nil {
+		return nil, err
+	}
 	hm.AppendKVPair(KVPair{keyName, values[1]})
 	return values[1], nil
 }
